@@ -63,6 +63,8 @@ def run(ctx) -> None:
   ctx.import_rules('C07', {'R8'}, 'R10', 'metadata is written to the addressed study / trial only: exact key filters (owner, study, trial) in the SQL backend')
   ctx.import_rules('C05', {'R1', 'R2'}, 'R9', 'an acknowledged metadata update is committed whole on the SQL backend (no write of the call is rolled back or left pending)')
   ctx.import_rules('C04', {'R1', 'R4'}, 'R7', 'no lost metadata updates: whole-row read-modify-writes and metadata merges share a lock region')
+  ctx.rule('R11', 'client handles read through: every materialize*() result comes from a service call made in that very call '
+           '(no copy kept on the handle)', 3)
   ctx.rule('R8', 'whether a metadata update addresses a trial is decided by presence (`is None` / HasField), never by the truthiness '
            'of the trial id (trial id 0 is a valid id)', 1)
   ctx.rule('R6', 'algorithm-issued metadata deltas are always forwarded to the datastore; '
@@ -74,6 +76,7 @@ def run(ctx) -> None:
   r5_pairing(ctx)
   r6_forwarding(ctx)
   r8_trial_id_presence(ctx)
+  r11_clients_read_through(ctx)
 
 
 # ----------------------------------------------------------------------- R1
@@ -331,6 +334,32 @@ def r4_policy_ns(ctx) -> None:
 
 
 # ----------------------------------------------------------------------- R5
+def r11_clients_read_through(ctx) -> None:
+  from vzstatic import pathcond
+  mod = ctx.index.need_module('vizier._src.service.clients')
+  n = 0
+  for ci in mod.classes.values():
+    for m in ci.methods.values():
+      if not m.name.startswith('materialize'):
+        continue
+      g = cfgmod.CFG(m.node)
+      rets = [nd for nd in g.nodes if nd.kind == 'stmt' and isinstance(nd.ast, ast.Return) and nd.ast.value is not None]
+      for r in rets:
+        n += 1
+        stale = None
+        for pth in pathcond.paths(g, [g.entry], r):
+          e = pathcond.substitute_on_path(pth, r.ast.value)
+          if not any(isinstance(c, ast.Call) and (dotted(c.func) or '').startswith('self._client.') for c in ast.walk(e)):
+            stale = stale or e
+        ctx.check(stale is None, 'R11', f'{ci.name}.{m.name}: result read from the service', r.ast,
+                  'on every path the returned value comes out of a self._client.* call',
+                  f'on some path `{m.name}` returns `{unparse(stale, 60) if stale is not None else ""}`, a value kept on the handle: metadata (or anything else) '
+                  'written to the trial / study by anyone since it was cached is not read back - the handle shows an older value than the last write',
+                  construct=f'{ci.name}.{m.name}:cached', func=m.qualname)
+  if n < 3:
+    raise AnalysisError(f'only {n} materialize*() returns found in the client classes')
+
+
 def r8_trial_id_presence(ctx) -> None:
   n = 0
   for q in ('vizier._src.pyvizier.oss.metadata_util', 'vizier._src.pyvizier.oss.proto_converters'):
